@@ -33,7 +33,7 @@ STEPS = {"quick": 6, "thorough": 12}
 
 def cells(tier):
     return [{"name": t, "topology": t, "n": N[tier], "steps": STEPS[tier], "cost": N[tier] * 300}
-            for t in ("chain", "tree", "extra")]
+            for t in ("chain", "tree", "extra", "star")]
 
 
 _sz = st.floats(0.1, 0.6, allow_nan=False, width=64)
@@ -58,6 +58,8 @@ def _geom(draw):
 
 @st.composite
 def _case(draw, topology, steps):
+    if topology == "star":
+        return draw(_star_case(steps))
     n = draw(st.integers(2, 6))
     links = []
     joints = []
@@ -101,6 +103,32 @@ def _case(draw, topology, steps):
     joint_order = draw(st.permutations(list(range(len(joints)))))
     return {"links": links, "joints": joints, "extras": extras, "ops": ops, "other": other,
             "link_order": list(link_order), "joint_order": list(joint_order)}
+
+
+@st.composite
+def _star_case(draw, steps):
+    """A base link with 2-4 children on different axes: each child touches the
+    base but not its siblings, so the only self-collisions are parent-child
+    pairs, which the generated whitelists cover asymmetrically (the base
+    whitelists its last child only)."""
+    k = draw(st.integers(2, 4))
+    dirs = draw(st.permutations([[1.0, 0, 0], [-1.0, 0, 0], [0, 1.0, 0], [0, -1.0, 0], [0, 0, 1.0]]))[:k]
+    links = [{"geoms": [{"type": "box", "xyz": [0.0, 0.0, 0.0], "rpy": [0.0, 0.0, 0.0], "named": False,
+                         "size": [0.3, 0.3, 0.3]}]}]
+    joints = []
+    for i, d in enumerate(dirs):
+        near = draw(st.booleans())
+        off = 0.25 if near else 0.6
+        links.append({"geoms": [{"type": "sphere", "xyz": [0.0, 0.0, 0.0], "rpy": [0.0, 0.0, 0.0],
+                                 "named": draw(st.booleans()), "radius": 0.15}]})
+        joints.append({"parent": 0, "child": i + 1, "type": draw(st.sampled_from(["fixed", "revolute"])),
+                       "xyz": [off * c for c in d], "rpy": [0.0, 0.0, 0.0], "axis": d,
+                       "lower": -1.0, "upper": 1.0})
+    ops = [{"op": "set_joint", "j": 0, "v": 0.5}, {"op": "detect"}, {"op": "self"}, {"op": "detect"}]
+    n = k + 1
+    return {"links": links, "joints": joints, "extras": [], "ops": ops, "other": [],
+            "link_order": list(draw(st.permutations(list(range(n))))),
+            "joint_order": list(draw(st.permutations(list(range(len(joints))))))}
 
 
 def strategy(cell):
